@@ -185,6 +185,15 @@ fn op_name(op: &EOp) -> &'static str {
         EOp::UniformRand(_) => "uniform_rand",
         EOp::MulBigint(..) => "mul_bigint",
         EOp::SumOf(_) => "sum",
+        EOp::Msm(..) => "msm",
+        EOp::MultiscalarMul(..) => "vartime_multiscalar_mul",
+        EOp::ClearCofactor(_) => "clear_cofactor",
+        EOp::MulByCofactorToGroup(_) => "mul_by_cofactor_to_group",
+        EOp::AffineMulBigint(..) => "affine_mul_bigint",
+        EOp::AffineNeg(_) => "affine_neg",
+        EOp::AffineMulFr(..) => "affine_mul_fr",
+        EOp::AddAffine(..) => "add_affine",
+        EOp::IntoGroup(_) => "into_group",
     }
 }
 
@@ -337,6 +346,63 @@ fn build(op: &EOp, pool: &[PoolEntry]) -> Built {
             let v = gets(is);
             plain(v.iter().sum::<Element>())
         }
+        EOp::Msm(is, scalars) => {
+            let bases: Vec<AffinePoint> = gets(is).iter().map(|e| (*e).into()).collect();
+            let ks: Vec<Fr> = (0..bases.len())
+                .map(|i| scalars.get(i).map(|h| fr_from_hex(h)).unwrap_or_else(|| Fr::from(3u64)))
+                .collect();
+            match <Element as ark_ec::VariableBaseMSM>::msm(&bases, &ks) {
+                Ok(e) => plain(e),
+                Err(_) => Built {
+                    none: true,
+                    ..plain(Element::IDENTITY)
+                },
+            }
+        }
+        EOp::MultiscalarMul(is, scalars) => {
+            let pts = gets(is);
+            let ks: Vec<Fr> = (0..pts.len())
+                .map(|i| scalars.get(i).map(|h| fr_from_hex(h)).unwrap_or_else(|| Fr::from(3u64)))
+                .collect();
+            plain(Element::vartime_multiscalar_mul(ks.iter(), pts.iter()))
+        }
+        EOp::ClearCofactor(i) => {
+            let a: AffinePoint = get(*i).into();
+            Built {
+                same_as: src_index(*i),
+                ..aff(a.clear_cofactor())
+            }
+        }
+        EOp::MulByCofactorToGroup(i) => {
+            let a: AffinePoint = get(*i).into();
+            Built {
+                same_as: src_index(*i),
+                ..plain(a.mul_by_cofactor_to_group())
+            }
+        }
+        EOp::AffineMulBigint(i, limbs) => {
+            let a: AffinePoint = get(*i).into();
+            plain(AffineRepr::mul_bigint(&a, limbs))
+        }
+        EOp::AffineNeg(i) => {
+            let a: AffinePoint = get(*i).into();
+            aff(-a)
+        }
+        EOp::AffineMulFr(i, h) => {
+            let a: AffinePoint = get(*i).into();
+            plain(a * fr_from_hex(h))
+        }
+        EOp::AddAffine(i, j) => {
+            let a: AffinePoint = get(*j).into();
+            plain(get(*i) + a)
+        }
+        EOp::IntoGroup(i) => {
+            let a: AffinePoint = get(*i).into();
+            Built {
+                same_as: src_index(*i),
+                ..plain(a.into_group())
+            }
+        }
     }
 }
 
@@ -381,6 +447,39 @@ fn check_valid(ctx: &mut Ctx, src: &'static str, e: &Element, a: &Option<AffineP
         let enc = e2.vartime_compress();
         (enc.0, enc.vartime_decompress())
     }));
+    // C03: every way of asking for the bytes gives the same 32 bytes, and they are the canonical
+    // little-endian form of the field-element form
+    {
+        let e3 = *e;
+        let forms = catch_unwind(AssertUnwindSafe(move || {
+            let a: [u8; 32] = e3.into();
+            let b: Encoding = e3.into();
+            let c: Encoding = (&e3).into();
+            let d: [u8; 32] = b.into();
+            let f = e3.vartime_compress_to_field().to_bytes_le();
+            (e3.vartime_compress().0, a, c.0, d, f)
+        }));
+        match forms {
+            Ok((base, a, c, d, f)) => {
+                if a != base || c != base || d != base || f != base {
+                    ctx.viol(
+                        "C03",
+                        "representation_dependent",
+                        format!("op=conversions source={}", src),
+                        format!(
+                            "vartime_compress {} / From<Element> for [u8;32] {} / From<&Element> for Encoding {} / Encoding->[u8;32] {} / compress_to_field {}",
+                            hex(&base),
+                            hex(&a),
+                            hex(&c),
+                            hex(&d),
+                            hex(&f)
+                        ),
+                    );
+                }
+            }
+            Err(p) => ctx.viol("C03", "panic", format!("op=conversions source={}", src), panic_msg(p)),
+        }
+    }
     match rt {
         Ok((bytes, Ok(back))) => {
             if back != *e {
